@@ -224,6 +224,17 @@ class CliAdapter:
                                    if x.startswith('contained:')]
             if res == ['contained']:
                 res = ['ok']
+        if self.cfg.get('implicit') and act == 'Connect':
+            # (the same for the run of connect_error notifications of a
+            # connection that could not be made)
+            hc = self.hc
+            i = 0
+            while i < len(hc):
+                j = i
+                while j < len(hc) and hc[j]['ev'] == 'connect_error':
+                    j += 1
+                hc[i:j] = sorted(hc[i:j], key=lambda h: h['ns'])
+                i = j + 1
         return {'sent': sent, 'hc': self.hc, 'cbs': self.cbs, 'res': res}
 
     def _drain_tasks(self):
